@@ -359,7 +359,9 @@ def body_or_chunks_check(ch: Checker, rule: str) -> None:
                         ok = False
                         break
                 if ok:
-                    table[(body, chunked)] = res
+                    # by value: the constant None IS the body when the body is None, b'' IS the body when it is empty
+                    same = (rv == 'None' and body == 'None') or (rv == "b''" and body == 'empty')
+                    table[(body, chunked)] = 'body' if same else res
     want = {('None', True): 'body', ('None', False): 'body', ('empty', True): 'chunks', ('nonempty', True): 'chunks', ('empty', False): 'body', ('nonempty', False): 'body'}
     diffs = ['body %s, chunked=%s -> %s (expected %s)' % (k[0], k[1], table.get(k), v) for k, v in want.items() if table.get(k) != v]
     if undec:
@@ -516,6 +518,79 @@ def _cl_store_kind(slice_value: ast.AST, m: Any, ce: ConstEval) -> Optional[str]
     return None
 
 
+def _is_cl_compare(e: ast.AST, key: Optional[str], lowered: Tuple[str, ...] = ()) -> bool:
+    if key is not None and isinstance(e, ast.Compare) and len(e.ops) == 1 and isinstance(e.ops[0], ast.Eq):
+        sides = [e.left, e.comparators[0]]
+        consts = [x for x in sides if isinstance(x, ast.Constant) and x.value == b'content-length']
+        lowers = [x for x in sides if (isinstance(x, ast.Call) and isinstance(x.func, ast.Attribute) and x.func.attr == 'lower' and not x.args and norm(x.func.value) == key) or
+                  (isinstance(x, ast.Name) and x.id in lowered)]
+        return len(consts) == 1 and len(lowers) == 1
+    return False
+
+
+def _cl_key_locals(f: FuncInfo, m: Any, ce: ConstEval) -> Dict[str, List[ast.For]]:
+    """the loop form of `next((k for k in headers if k.lower() == b'content-length'), b'Content-Length')`: a local whose every
+    store is either the constant b'Content-Length' or `N = <key>` directly under `if <key>.lower() == b'content-length'` in a
+    loop over the header names.  Whatever the loop does afterwards (break or go on), N names a field the map already holds or,
+    when there is none, the canonical one.  -> {N: the loops that refine it}"""
+    stores: Dict[str, List[Tuple[str, Optional[ast.For]]]] = {}
+
+    def visit(body: List[ast.stmt], loop: Optional[ast.For], kv: Optional[str], lowered: Tuple[str, ...], in_cl_if: bool) -> None:
+        for s_ in body:
+            if isinstance(s_, (ast.Assign, ast.AnnAssign)):
+                tgs = s_.targets if isinstance(s_, ast.Assign) else [s_.target]
+                for tg in tgs:
+                    for nm in ast.walk(tg):
+                        if isinstance(nm, ast.Name) and isinstance(nm.ctx, ast.Store):
+                            v = s_.value
+                            if len(tgs) == 1 and tg is nm and v is not None and ce.try_eval(m, v) == b'Content-Length':
+                                stores.setdefault(nm.id, []).append(('canonical', None))
+                            elif len(tgs) == 1 and tg is nm and in_cl_if and kv is not None and isinstance(v, ast.Name) and v.id == kv:
+                                stores.setdefault(nm.id, []).append(('existing', loop))
+                            else:
+                                stores.setdefault(nm.id, []).append(('other', None))
+            elif isinstance(s_, ast.AugAssign) and isinstance(s_.target, ast.Name):
+                stores.setdefault(s_.target.id, []).append(('other', None))
+            if isinstance(s_, ast.For):
+                k2 = _key_var(s_.target, s_.iter)
+                for nm in ast.walk(s_.target):
+                    if isinstance(nm, ast.Name):
+                        stores.setdefault(nm.id, []).append(('other', None))
+                visit(s_.body, s_, k2, _lowered_locals(s_.body, k2), False)
+                visit(s_.orelse, None, None, (), False)
+            elif isinstance(s_, ast.If):
+                visit(s_.body, loop, kv, lowered, _is_cl_compare(s_.test, kv, lowered))
+                visit(s_.orelse, loop, kv, lowered, False)
+            elif isinstance(s_, (ast.While, ast.With, ast.Try)):
+                for fld in ('body', 'orelse', 'finalbody'):
+                    visit(getattr(s_, fld, []) or [], None, None, (), False)
+                for h in getattr(s_, 'handlers', []) or []:
+                    visit(h.body, None, None, (), False)
+    visit(f.node.body, None, None, (), False)   # type: ignore[attr-defined]
+    out: Dict[str, List[ast.For]] = {}
+    for name, vals in stores.items():
+        kinds = {k for k, _ in vals}
+        if kinds == {'canonical', 'existing'}:
+            out[name] = [lp for k, lp in vals if lp is not None]
+    return out
+
+
+def cl_store_at(p: Any, i: int, st: ast.AST, sym: Sym, f: FuncInfo, ce: ConstEval, cl_keys: Dict[str, List[ast.For]]) -> Optional[str]:
+    """_cl_store_kind of statement i of path p (None: not a Content-Length store), the loop form of the lookup included"""
+    if not (isinstance(st, ast.Assign) and isinstance(st.targets[0], ast.Subscript)):
+        return None
+    tg = st.targets[0]
+    kind_ = _cl_store_kind(sym.value(tg.slice, i), f.module, ce)
+    if isinstance(tg.slice, ast.Name) and tg.slice.id in cl_keys:
+        # the loop form of the lookup: the refining loop over the names of THIS map has run (or found nothing to run over) before the store
+        base = norm(sym.value(tg.value, i))
+        g = p.cfg
+        ran = any(g.nodes[nid].ast is lp and 'headers' in base and j_ < i for j_, (nid, lab) in enumerate(p.steps) for lp in cl_keys[tg.slice.id]
+                  if g.nodes[nid].kind == 'for')
+        kind_ = 'existing-or-canonical' if ran else 'canonical'
+    return kind_
+
+
 def content_length_check(ch: Checker, rule: str) -> None:
     prog = ch.prog
     ce = ConstEval(prog)
@@ -527,6 +602,7 @@ def content_length_check(ch: Checker, rule: str) -> None:
         n = 0
         nstores = 0
         te_flags = _te_flags(f)
+        cl_keys = _cl_key_locals(f, f.module, ce)
         for p in fpaths(g, limit=100000):
             ch.paths += 1
             if p.exit_kind != 'return':
@@ -544,7 +620,7 @@ def content_length_check(ch: Checker, rule: str) -> None:
             body_arg = (ba or {}).get('body') if ba is not None else (pk[0].args[2] if len(pk[0].args) >= 3 else None)
             body_txt = norm(sym.value(body_arg, last[0])) if body_arg is not None else None
             for i, st in p.stmts():
-                kind_ = _cl_store_kind(sym.value(st.targets[0].slice, i), f.module, ce) if isinstance(st, ast.Assign) and isinstance(st.targets[0], ast.Subscript) else None
+                kind_ = cl_store_at(p, i, st, sym, f, ce, cl_keys)
                 if kind_ is not None:
                     nstores += 1
                     if kind_ == 'canonical':
